@@ -591,7 +591,7 @@ func c07Encoders(w *World, r *Report) {
 			r.Undec("R6", e.typ+"."+e.method, token.NoPos, "encoder not found")
 			continue
 		}
-		recv := "param:" + f.Params[0].Name()
+		recv := "param:" + canonParam(f.Params[0])
 		seen := map[string]bool{}
 		for _, c := range CallsIn(f, false, "action.Actions).SetVar") {
 			a := c.Common().Args
